@@ -595,7 +595,47 @@ def r12(ctx):
         ctx.ob('C19.R12', fn, c, not stale, 'chain part length written by dumpField', 'decimal base set on every path before it: %s' % (not stale))
 
 
+def r13(ctx):
+    ctx.rule('C19.R13', 'the keys of a value list are dumped as the unsigned numbers the loader reads: wherever a function of '
+             'data.cpp writes the key of an entry of a map<unsigned int, string> (member first of the element) to a stream, '
+             'the streamed expression has the unsigned 32 bit type of the key - copied into a pair with a signed first, a key '
+             'from 0x80000000 up is written with a minus sign, which parseInt refuses when the dump is loaded', minimum=1)
+    fb = ctx.fb
+    n = 0
+    seen = set()
+    for fn in fb.functions:
+        if fn.relfile != 'src/lib/ebus/data.cpp' or not fn.nodes or (fn.name, fn.sig) in seen:
+            continue
+        seen.add((fn.name, fn.sig))
+        ranges = {}
+        for l in fn.all('CXXForRangeStmt'):
+            v = fn.nodes[l]
+            rng = fn.nodes.get(fn.strip(v.get('range', -1), casts=True), {})
+            if 'map<unsigned int' in (rng.get('t') or ''):
+                ranges[(v.get('loopvar') or '').split(':')[-1]] = l
+        if not ranges:
+            continue
+        for c in fn.calls():
+            v = fn.nodes[c]
+            if v['k'] != 'CXXOperatorCallExpr' or v.get('op') != '<<' or len(v.get('args', [])) != 2:
+                continue
+            a = fn.nodes[fn.strip(v['args'][1], casts=True)]
+            if a.get('k') != 'MemberExpr' or a.get('name') != 'first':
+                continue
+            base = fn.key(a['ch'][0]) if a.get('ch') else ''
+            if base.split('.')[0].lstrip('*(') not in ranges and base not in ranges:
+                continue
+            n += 1
+            ctx.touch(fn)
+            ok = a.get('w') == 32 and not a.get('sg')
+            ctx.ob('C19.R13', fn, c, ok, 'key of a value list entry written in %s' % fn.name.split('::', 1)[1],
+                   'streamed as unsigned 32 bit: %s (type %s)' % (ok, a.get('t')))
+    if n < 1:
+        raise AnalysisBroken('C19.R13: no value list key written to a stream found in data.cpp')
+
+
 def run(ctx):
+    r13(ctx)
     r12(ctx)
     r11(ctx)
     r10(ctx)
